@@ -315,7 +315,7 @@ class Machine:
                         e2["@callvals"] = vals
                         out.extend((s, e2) for lab, s in node.succ if lab in ("n",))
                 return out
-        if k in ("await", "call", "yield", "collect", "nop", "del"):
+        if k in ("await", "call", "yield", "collect", "nop", "del", "exit_cm"):
             hook = _hook(self.ops, "visit")
             if hook:
                 e = dict(e)
